@@ -1,7 +1,55 @@
-(* Observation commands: filled in by the corresponding property work; definitions only. *)
+(* Observation commands of the interpreter-tag domain (C15), prefix `t.`.  Definitions only. *)
 From Coq Require Import List NArith Bool String.
 Import ListNotations.
-Require Import Show.
+Require Import VParse VDec Show Tags TagsLit TagsModel.
 Open Scope N_scope.
 
-Definition run_tags (cmd : list N) (args : list (list N)) : option (list N) := None.
+(* list argument: every item is preceded by ","  ("" = [], ",a,b" = [a; b], "," = [""]) *)
+Definition parse_list (s : list N) : list (list N) := tl (split_on 44 s).
+Definition parse_nat (s : list N) : nat := N.to_nat (parse_N s).
+(* python_version "3.11" / "3" / "3.11.4" *)
+Definition parse_pv (s : list N) : pyver :=
+  match map parse_nat (split_on 46 s) with [] => (0%nat, []) | M :: r => (M, r) end.
+Definition parse_optN (s : list N) : option N := if seqb s [78] then None else Some (parse_N s).     (* "N" = None *)
+Definition parse_optS (s : list N) : option (list N) :=                                              (* "N" = None, "S<text>" *)
+  match s with c :: t => if c =? 83 then Some t else None | [] => None end.
+(* abicfg "d,g,p,u,r,e,w" *)
+Definition parse_cfg (s : list N) : abicfg :=
+  let f := split_on 44 s in
+  {| py_debug := parse_optN (nth_str 0 f); gil_disabled := parse_optN (nth_str 1 f); with_pymalloc := parse_optN (nth_str 2 f);
+     unicode_size := parse_optN (nth_str 3 f); has_refcount := parse_bool (nth_str 4 f); has_ext := parse_bool (nth_str 5 f);
+     wide_unicode := parse_bool (nth_str 6 f) |}.
+Definition show_tags (l : list tag) : list N := join [44] (map tag_str l).
+
+Definition obs_cpython (pv abis ps cfg : list N) : list N :=
+  let v := parse_pv pv in
+  let a := if seqb abis [63] then default_abis (parse_cfg cfg) v else parse_list abis in        (* "?" = None *)
+  show_tags (cpython_tags v a (parse_list ps)).
+Definition obs_compat (pv interp ps : list N) : list N :=
+  show_tags (compatible_tags (parse_pv pv) (opt_interp interp) (parse_list ps)).
+Definition obs_generic (interp abis ps : list N) : list N := show_tags (generic_tags interp (parse_list abis) (parse_list ps)).
+Definition mk_sys (name nodot_var sysver ext cfg : list N) : syscfg :=
+  {| impl_name := name; py_version_nodot := parse_optS nodot_var; sys_version := parse_pv sysver;
+     ext_suffix := parse_optS ext; abi_cfg := parse_cfg cfg |}.
+Definition obs_sys (name nodot_var sysver ext cfg plat : list N) : list N :=
+  match sys_tags (mk_sys name nodot_var sysver ext cfg) [normalize_string plat] with
+  | SOk l => show_tags l
+  | SSystemError => asc "E"
+  | SCrash => asc "!EXC:IndexError"
+  end.
+(* generic_tags("xx", None, ["p"]): the ABI list derived from EXT_SUFFIX *)
+Definition obs_gabi (ext cfg sysver : list N) : list N :=
+  match generic_abi (parse_optS ext) (parse_cfg cfg) (parse_pv sysver) with
+  | GOk abis => show_tags (generic_tags (asc "xx") abis [asc "p"])
+  | GSystemError => asc "E"
+  | GCrash => asc "!EXC:IndexError"
+  end.
+
+Definition run_tags (cmd : list N) (args : list (list N)) : option (list N) :=
+  let a := fun n => nth_str n args in
+  if seqb cmd (asc "t.cpython") then Some (obs_cpython (a 0%nat) (a 1%nat) (a 2%nat) (a 3%nat))
+  else if seqb cmd (asc "t.compat") then Some (obs_compat (a 0%nat) (a 1%nat) (a 2%nat))
+  else if seqb cmd (asc "t.generic") then Some (obs_generic (a 0%nat) (a 1%nat) (a 2%nat))
+  else if seqb cmd (asc "t.gabi") then Some (obs_gabi (a 0%nat) (a 1%nat) (a 2%nat))
+  else if seqb cmd (asc "t.sys") then Some (obs_sys (a 0%nat) (a 1%nat) (a 2%nat) (a 3%nat) (a 4%nat) (a 5%nat))
+  else None.
